@@ -276,6 +276,26 @@ def run(cx, tier='quick'):
     for r_, i_, v_ in subn.checked:
         rep.checked.append((r_, i_, v_))
         rep.counts[r_] = rep.counts.get(r_, 0) + 1
+    # pattern arity: a variant pattern that receives no element, or two, for one field (`..` twice in a tuple pattern, a position
+    # shifted) does not compile: the `pattern-once` obligations of the semantic summaries (C02, C03, C05, C07) are part of C01
+    from . import c02 as _c02, c03 as _c03, c05 as _c05, c07 as _c07
+    npo_ = 0
+    for m_ in (_c02, _c03, _c05, _c07):
+        try:
+            subp = m_.run(cx, tier)
+        except Exception as e_:
+            rep.broken.append('pattern-once rules of %s could not be evaluated: %r' % (m_.__name__, e_))
+            continue
+        for fnd in subp.findings:
+            if 'pattern-once' in fnd.instance and not any(x.key == fnd.key for x in rep.findings):
+                rep.findings.append(fnd)
+        for r_, i_, v_ in subp.checked:
+            if 'pattern-once' in i_:
+                rep.checked.append((r_, i_, v_))
+                rep.counts[r_] = rep.counts.get(r_, 0) + 1
+                npo_ += 1
+    if npo_ < 10:
+        rep.broken.append('pattern-once obligations: %d evaluated, fewer than the 10 counted by hand' % npo_)
     return rep
 
 
